@@ -3293,8 +3293,10 @@ func stackTypeAliasConverter(u any) (S Stack, converted bool) {
 		// genuine Stack, just pass it back
 		// with a thumbs-up ...
 		if st, isStack := u.(Stack); isStack {
-			S = st
-			converted = isStack
+			if !st.IsZero() {
+				S = st
+				converted = true
+			}
 			return
 		}
 
